@@ -49,6 +49,7 @@ class Store:
         self.default_actor = None
         self.op_counts = {}
         self.abort_after = None    # hard stop for runaway retry loops: raise SystemExit-like
+        self.garble = None         # None | callable(name, data) -> data returned by download (short/garbled read)
 
     # -- helpers ------------------------------------------------------------------------------
     def snapshot_objects(self):
@@ -209,9 +210,10 @@ class MemBackend(_Common, short_name='vfmem'):
     def download(self, name):
         def effect():
             try:
-                return self.store.objects[name]
+                data = self.store.objects[name]
             except KeyError:
                 raise FileNotFoundError(2, f'no such object {name}')
+            return self.store.garble(name, data) if self.store.garble is not None else data
         return self._run('download', name, effect)
 
     def download_stream(self, name, stream, chunk_size=DEFAULT_STREAM_CHUNK_SIZE):
@@ -298,9 +300,10 @@ class AsyncMemBackend(_Common, short_name='vfamem'):
     async def download(self, name):
         def effect():
             try:
-                return self.store.objects[name]
+                data = self.store.objects[name]
             except KeyError:
                 raise FileNotFoundError(2, f'no such object {name}')
+            return self.store.garble(name, data) if self.store.garble is not None else data
         return await self._run('download', name, effect)
 
     async def download_stream(self, name, stream, chunk_size=DEFAULT_STREAM_CHUNK_SIZE):
